@@ -1,10 +1,12 @@
 //! vcheck: runs the check of one property (default revm feature set).
 mod common;
 mod evmrun;
-mod txcheck;
+mod monchecks;
+mod monitors;
 mod ops;
 mod pure;
 mod structs;
+mod txcheck;
 
 use vcore::Ctx;
 
@@ -31,11 +33,22 @@ fn main() {
         "C03" => ops::c03(&mut ctx),
         "C04" => ops::c04(&mut ctx),
         "C05" => ops::c05_opcodes(&mut ctx),
-        "C11" => structs::c11a(&mut ctx),
+        "C07" => monchecks::c07(&mut ctx),
+        "C08" => monchecks::c08(&mut ctx),
+        "C09" => monchecks::c09(&mut ctx),
+        "C10" => monchecks::c10(&mut ctx),
+        "C11" => {
+            structs::c11a(&mut ctx);
+            monchecks::c11b(&mut ctx);
+        }
         "C12" => structs::c12(&mut ctx),
         "C13" => pure::c13(&mut ctx),
         "C14" => pure::c14(&mut ctx),
+        "C25" => monchecks::c25(&mut ctx),
         "C27" => pure::c27(&mut ctx),
+        "C28" => monchecks::c28(&mut ctx),
+        "C29" => monchecks::c29(&mut ctx),
+        "C30" => monchecks::c30(&mut ctx),
         "C32" => pure::c32(&mut ctx),
         _ => {
             eprintln!("unknown property {id}");
